@@ -18,11 +18,13 @@ RULE = ('case = (stateful subclass of one of the six worker classes, init_state 
         'incarnations (re-creation with init_state=previous user_state, or restart() for persistent kinds)). Oracle: while the child is alive and paused a '
         'process/remote parent sees init_state; after an ending that lets the child report, the parent sees the last assigned value (for terminate: the value of '
         'some prefix of the assignments) whichever accessor is read first; parent-side assignment raises RuntimeError alive, dead and not-run; the next '
-        'incarnation first observes the previous final state. Non-trivial = >=1 assignment and (non-return ending or chain>1 or paused read); distinct = distinct case.')
+        'incarnation first observes the previous final state. Late-phase cases hold the child right after it handed over its final result (process kinds) or the '
+        'parent-side forwarding thread between final result and final state (remote kinds) while the parent calls wait(t) and reads: as long as nothing reported the '
+        'worker dead the parent sees init_state, once wait()/is_alive() reported it dead the parent sees the last assigned value. Non-trivial = >=1 assignment and (non-return ending or chain>1 or paused read); distinct = distinct case.')
 ASSUMPTIONS = ['thread kinds are excluded from the alive-phase read (documented as unspecified)', 'values are compared with ==']
 SHRINK = 'none'
 TIME_BUDGET = {'quick': 170, 'thorough': 1700}
-REQUIRED = {'quick': {'ending:terminate': 60, 'ending:raise': 60, 'chain>1': 80, 'paused_read': 40, 'first_read:user_state': 100, 'restart': 20, 'inplace_mutation': 60, 'same_object_assigned_back': 40, 'death_observed_without_worker_api': 8},
+REQUIRED = {'quick': {'ending:terminate': 60, 'ending:raise': 60, 'chain>1': 80, 'paused_read': 40, 'first_read:user_state': 100, 'restart': 20, 'inplace_mutation': 60, 'same_object_assigned_back': 40, 'death_observed_without_worker_api': 8, 'late_landing_reached': 40},
             'thorough': {'ending:terminate': 600, 'ending:raise': 600, 'chain>1': 800, 'paused_read': 400}}
 
 _VALS = ['none', 'zero', 'str', 'list', 'dict', 'point', 5, 6, 7]
@@ -30,7 +32,7 @@ _ASSIGN = _VALS + ['inplace', 'inplace', 'list', 'dict']
 
 
 def examples(tier):
-    return 520 if tier == 'quick' else 6000
+    return 720 if tier == 'quick' else 7000
 
 
 def shards(tier):
@@ -54,7 +56,13 @@ def strategy(tier):
         'kind': st.sampled_from(IC.ONE_SHOT + IC.PERSISTENT), 'init': st.sampled_from(['list', 'dict']),
         'chain': st.lists(inplace_inc, min_size=1, max_size=3), 'use_restart': st.booleans(), 'assign_from_parent': st.just('never')})
     general = _general(inc)
-    return st.one_of(general, general, general, same_object)
+    # the end of life under a magnifying glass: the child is held right after it has handed over its final result (process kinds), or the
+    # parent-side forwarding thread is held between the final result and the final state (remote kinds), while the parent calls wait(t)
+    late = st.fixed_dictionaries({
+        'late': st.just(True), 'kind': st.sampled_from(['process', 'p_process', 'remote', 'p_remote']), 'init': st.sampled_from(_VALS),
+        'values': st.lists(st.sampled_from(_VALS), min_size=1, max_size=4), 'n_raw': st.integers(0, 50), 'wait_t': st.sampled_from([0, 0.05, 0.3]),
+        'reads_alive': st.lists(st.sampled_from(['user_state', 'is_alive', 'has_error', 'wait']), min_size=1, max_size=3)})
+    return st.one_of(general, general, general, same_object, late)
 
 
 def _general(inc):
@@ -86,7 +94,160 @@ def _eq(a, b):
         return False
 
 
+_src_cache = {}
+
+
+def _src_line(fname, line):
+    if fname not in _src_cache:
+        import pyworkers
+        try:
+            with open(os.path.join(os.path.dirname(pyworkers.__file__), fname)) as f:
+                _src_cache[fname] = f.read().splitlines()
+        except OSError:
+            _src_cache[fname] = []
+    src = _src_cache[fname]
+    return src[line - 1] if 0 < line <= len(src) else ''
+
+
+def _late_census(ctx, cls, kind, values, init_name):
+    # (the forwarding thread also serialises the worker: its event count depends on the initial state, so the census uses the same one;
+    #  the first serialisation of a class in a process runs extra one-off analysis code, so the census is repeated until two runs agree)
+    key = ('c16late', kind, tuple(values), init_name)
+    cache = ctx.data.setdefault('census', {})
+    if key in cache:
+        return cache[key]
+    prev = None
+    cand = []
+    for _ in range(4):
+        cand = _late_census_once(ctx, cls, kind, values, init_name)
+        if cand == prev:
+            break
+        prev = cand
+    cache[key] = cand
+    return cand
+
+
+def _late_census_once(ctx, cls, kind, values, init_name):
+    name = IC.fresh_name(ctx, kind + '-latecensus')
+    target = name + '.front' if kind.endswith('remote') else name
+    inject.arm(target, 'census')
+    kw = {'name': name, 'init_state': vworkers.mkval(init_name)}
+    if kind.endswith('remote'):
+        kw['host'] = IC.server(ctx).addr
+    persistent = kind.startswith('p_')
+    w = bounded(cls, 25, vworkers.state_target, args=None if persistent else [values, 'return'], **kw)
+    if persistent:
+        w.enqueue(values, 'return')
+        w.close()
+    bounded(w.wait, 25, 10)
+    tr = inject.trace(target)
+    inject.cleanup(target)
+    if kind.endswith('remote'):
+        i0 = next((i for i, e in enumerate(tr) if e[2] == '_fetch_results' and 'self._user_state = recv_msg' in _src_line(e[1], e[3])), None)
+        cand = [e[0] for e in tr[i0:i0 + 6]] if i0 is not None else []
+    else:
+        i0 = next((i for i, e in enumerate(tr) if e[1] == 'process.py' and e[2] == '_run' and 'child_end.put(((True' in _src_line(e[1], e[3])), None)
+        cand = [e[0] for e in tr[i0 + 1:] if e[1] == 'process.py' and e[2] == '_run'] if i0 is not None else []
+    return cand
+
+
+def run_late(case, ctx):
+    import copy
+    out = Out()
+    kind = case['kind']
+    cls = vworkers.CLASSES[kind]
+    persistent = kind.startswith('p_')
+    remote = kind.endswith('remote')
+    out.label('kind:' + kind, 'late_phase')
+    values = case['values']
+    init = vworkers.mkval(case['init'])
+    final = init
+    for v in values:
+        final = _apply(final, v)
+    cand = _late_census(ctx, cls, kind, values, case['init'])
+    if not cand:
+        out.excluded = 'no landing point after the hand-over of the final result in the census'
+        return out
+    n = cand[case['n_raw'] % len(cand)]
+    name = IC.fresh_name(ctx, kind)
+    target = name + '.front' if remote else name
+    inject.arm(target, 'pause', n)
+    kw = {'name': name, 'init_state': copy.deepcopy(init)}
+    if remote:
+        kw['host'] = IC.server(ctx).addr
+    site = kind + (':forwarding_thread_held_between_result_and_state' if remote else ':child_held_after_handing_over_its_result')
+    w = None
+    try:
+        try:
+            w = bounded(cls, 25, vworkers.state_target, args=None if persistent else [values, 'return'], **kw)
+            if persistent:
+                w.enqueue(values, 'return')
+                w.close()
+        except BaseException as e:
+            out.excluded = 'constructor failed: ' + type(e).__name__
+            return out
+        r = inject.wait_reached(target, 5.0)
+        if not r:
+            if os.environ.get('VERIF_DEBUG'):
+                tr2 = inject.trace(target)
+                print('not reached: n', n, 'trace len', len(tr2), [e for e in tr2 if e[2] == '_fetch_results'][:12])
+            out.excluded = 'landing point not reached'
+            return out
+        out.label('late_landing_reached')
+        out.nontrivial = True
+        time.sleep(0.05)
+        log = []
+        dead_seen = False
+        for what in ['wait'] + list(case['reads_alive']):
+            try:
+                if what == 'wait':
+                    v = bounded(w.wait, 20, case['wait_t'])
+                    if v is True:
+                        dead_seen = True
+                elif what == 'is_alive':
+                    v = bounded(w.is_alive, 20)
+                    if v is False:
+                        dead_seen = True
+                else:
+                    v = getattr(w, what)
+            except Blocked:
+                out.viol('call_blocked', site, what)
+                break
+            except Exception as e:
+                v = ('RAISED', type(e).__name__)
+            log.append([what, repr(v)[:60]])
+            if what == 'user_state':
+                if dead_seen:
+                    # the worker has been reported dead: the state must be the last value assigned in the child
+                    if not _eq(v, final):
+                        out.viol('reported_dead_before_final_state_arrived', site, f'wait()/is_alive() reported the worker dead, user_state is {v!r}, last value assigned in the child {final!r}')
+                elif not _eq(v, init):
+                    out.viol('parent_saw_child_state_while_alive', site, f'worker still alive (wait({case["wait_t"]}) returned False); user_state {v!r} != initial {init!r}')
+        inject.release(target)
+        try:
+            ok = bounded(w.wait, 25, 10)
+        except Blocked:
+            ok = 'blocked'
+        us = w.user_state
+        if ok is not True:
+            out.viol('worker_did_not_finish_after_release', site, repr(ok))
+        elif not _eq(us, final):
+            out.viol('user_state_not_synchronised', site + ':late', f'after the end user_state is {us!r}, expected {final!r}')
+        out.obs = {'site': site, 'n': n, 'log': log, 'final': repr(us)[:60]}
+    finally:
+        inject.release(target)
+        inject.cleanup(target)
+        if w is not None:
+            try:
+                bounded(w.terminate, 10, timeout=1)
+            except BaseException:
+                pass
+    return out
+
+
 def run_case(case, ctx):
+    if case.get('late'):
+        return run_late(case, ctx)
     out = Out()
     kind = case['kind']
     cls = vworkers.CLASSES[kind]
